@@ -47,7 +47,9 @@ NAMES = ['test_a (m.T.test_a)', 'tëst_ü (m.T.tëst_ü)', 'x' * 5000,
          'cr\rid', 'crlf\r\nid', 'ls id', 'vt\x0bid', 'fs\x1cid',
          'nel\x85id', ' lead and trail ', 'tab\tid', '0 0 0',
          # a file name decoded with surrogateescape in a test id
-         'caf\udce9.txt (doc)']
+         'caf\udce9.txt (doc)',
+         # a name that reads as a header announcing no names; a blank name
+         '7 0 0', '   ', '']
 NOISE = [b'text\n', b'\n', b'Traceback (most recent call last):\n', b'1 2\n',
          b'1 2 x\n', b'\xff\xfe invalid utf-8\n', b'x' * 200000 + b'\n',
          b'0 0 0\n', b'7 1 0\n',
